@@ -1,4 +1,520 @@
-import StreamzVerif.Model.Edit
+import StreamzVerif.Proofs.EditInv
+/-
+C15 — delivery follows the current topology under connect / disconnect / destroy / gc.
+
+Model: `Model/Edit.lean` (`connect`, `disconnect`, `destroy`, per-kind `_add_upstream` / `_remove_upstream`,
+liveness `alive`, the collector `collect`) on top of `Model/Graph.lean` (the interpreter `emitAt` = `Stream._emit`).
+Histories: `Op` / `stepOp` / `runOps` (Proofs/EditInv.lean §F) — the very steps the correspondence driver takes,
+failed edits included; `ValidHist` only asks that `connect` is applied to streams the program holds and never
+creates a parallel edge.
+
+  1. links          `links_consistent_*` (per operation), `links_consistent` (every history),
+                    `disconnect_absent_noop`, `disconnect_raises_iff_absent`, `destroy_succeeds`
+  2. per-input state `zip_state_aligned`, `combine_state_aligned`, `state_aligned_history`
+  3. delivery       `delivery_follows_current_edges`
+  4. combining nodes `zip_remove_drops_only_that_buffer`, `zip_is_function_of_current_inputs`,
+                    `zip_after_disconnect_partial`, `zip_all_nonempty_never_emits`, `zip_stuck_after_disconnect`
+                    (the recorded defect `zip-disconnect-leaves-all-buffers-nonempty`), `combine_latest_after_edit`
+  5. liveness       `collect_alive_only`, `alive_upward_closed`, `alive_iff_reachable`, `no_resurrection`,
+                    `dead_branch_receives_nothing`, `sink_stays_active`
+
+`A` in `Links A S` is the set of children for which the parents' (weak) downstream sets are required to be
+complete; the strong direction (`d ∈ downs u → u ∈ ups d`) and absence of duplicates hold for all nodes.
+-/
 namespace StreamzVerif.Graph
-theorem placeholder_C15 : True := trivial
+open Edit
+
+variable (G : NodeId → Kind)
+
+/-! ## 1. Upstream and downstream links are mutually consistent -/
+
+/-- The pipelines the correspondence driver builds (node `i` of kind `kinds[i]` over the upstream list
+`upss[i]`, no parallel edges) start fully consistent, with aligned per-input state. -/
+theorem links_consistent_init {kinds : List Kind} {upss : List (List NodeId)} (hlen : upss.length ≤ kinds.length)
+    (hnd : ∀ l ∈ upss, l.Nodup) :
+    Consistent (initState kinds upss) ∧ Aligned (fun i => kinds.getD i .source) (initState kinds upss) :=
+  ⟨initState_consistent hlen hnd, initState_aligned hnd⟩
+
+/-- `u.connect(d)` (no parallel edge): consistency is kept, `d` is appended to `u`'s children and `u` to `d`'s
+parents, nothing else changes. -/
+theorem links_consistent_connect {A : NodeId → Prop} {S : State} (h : Links A S) {u d : NodeId}
+    (h1 : d ∉ S.downs u) (h2 : u ∉ (S.loc d).ups) :
+    Links A (connect G u d S) ∧
+      (∀ x, (connect G u d S).downs x = if x = u then S.downs u ++ [d] else S.downs x) ∧
+      (∀ x, ((connect G u d S).loc x).ups = if x = d then (S.loc d).ups ++ [u] else (S.loc x).ups) :=
+  ⟨h.of_connect G h1 h2, connect_downs_new G h1, connect_ups G u d S⟩
+
+/-- A successful `u.disconnect(d)`: consistency is kept and the edge is gone on both sides, nothing else changes. -/
+theorem links_consistent_disconnect {A : NodeId → Prop} {S : State} (h : Links A S) {u d : NodeId}
+    (hok : (disconnect G u d S).err = none) :
+    Links A (disconnect G u d S).st ∧
+      d ∉ (disconnect G u d S).st.downs u ∧ u ∉ ((disconnect G u d S).st.loc d).ups ∧
+      (∀ x, (disconnect G u d S).st.downs x = if x = u then (S.downs u).erase d else S.downs x) ∧
+      (∀ x, ((disconnect G u d S).st.loc x).ups = if x = d then (S.loc d).ups.erase u else (S.loc x).ups) :=
+  ⟨h.of_disconnect G hok, (h.of_disconnect_removed G hok).1, (h.of_disconnect_removed G hok).2,
+    disconnect_ok_downs G hok, disconnect_ok_ups G hok⟩
+
+/-- `u.disconnect(d)` for an edge that does not exist raises `KeyError` and leaves the state unchanged. -/
+theorem disconnect_absent_noop {u d : NodeId} {S : State} (h : d ∉ S.downs u) :
+    (disconnect G u d S).st = S ∧ (disconnect G u d S).err = some .keyError ∧ (disconnect G u d S).log = [] :=
+  disconnect_absent G h
+
+/-- On a consistent pipeline with aligned per-input state, `disconnect` raises exactly when the edge is absent
+(in particular `zip` / `combine_latest._remove_upstream` never fail half-way). -/
+theorem disconnect_raises_iff_absent {A : NodeId → Prop} {S : State} (ha : Aligned G S) (hl : Links A S)
+    (u d : NodeId) : (disconnect G u d S).err ≠ none ↔ d ∉ S.downs u := by
+  constructor
+  · intro h hd; exact h (disconnect_ok_of_edge G ha hl hd)
+  · intro hd h; rw [(disconnect_absent G hd).2.1] at h; cases h
+
+/-- A successful `d.destroy()`: consistency is kept, `d` has no parents left and is nobody's child, every other
+child list is unchanged. -/
+theorem links_consistent_destroy {A : NodeId → Prop} {S : State} (h : Links A S) {d : NodeId}
+    (hok : (destroy G d S).err = none) :
+    Links A (destroy G d S).st ∧ ((destroy G d S).st.loc d).ups = [] ∧
+      (∀ u, d ∉ (destroy G d S).st.downs u) ∧ (∀ x, (destroy G d S).st.downs x = (S.downs x).erase d) :=
+  ⟨h.of_destroy G hok, (h.of_destroy_isolated G hok).1, (h.of_destroy_isolated G hok).2, destroy_downs G h hok⟩
+
+/-- ... and it does succeed on consistent, aligned pipelines (for a node whose parents still list it). -/
+theorem destroy_succeeds {A : NodeId → Prop} {S : State} (ha : Aligned G S) (hl : Links A S) {d : NodeId}
+    (hd : A d) : (destroy G d S).err = none := destroy_ok G ha hl hd
+
+/-- Garbage collection: consistency is kept for the nodes that are alive; dead nodes vanish from their parents'
+child lists but keep their own parent lists. -/
+theorem links_consistent_collect {A : NodeId → Prop} {S : State} (h : Links A S) (nodes : List NodeId) (L : Live) :
+    Links (fun d => A d ∧ alive nodes L S d = true) (collect nodes L S) ∧
+      (∀ i, ((collect nodes L S).loc i).ups = (S.loc i).ups) :=
+  ⟨h.of_collect nodes L, fun _ => rfl⟩
+
+/-- What `slice._check_end` (the only topology change a run can make) does: `d` leaves the child list of exactly
+its parents; `d`'s own parent list is not touched. -/
+theorem detach_removes_exactly (d : NodeId) (S : State) :
+    (∀ u, (detachNode d S).downs u = if u ∈ (S.loc d).ups then (S.downs u).filter (· ≠ d) else S.downs u) ∧
+      (detachNode d S).loc = S.loc :=
+  ⟨detachNode_downs_eq d S, detachNode_loc d S⟩
+
+/-- Every `_emit` — completed, aborted by an exception, or out of fuel — leaves all parent lists untouched,
+only shrinks child lists, keeps every edge into a node that is not an end-bounded `slice`, and so keeps the links
+consistent for those nodes. -/
+theorem links_consistent_emit {A : NodeId → Prop} {S : State} (h : Links A S) (f : Nat) (n : NodeId) (v : Val)
+    (md : Meta) :
+    Links (fun d => A d ∧ ¬ BoundedSlice (G d)) (emitAt G f n v md S).st ∧
+      (∀ i, ((emitAt G f n v md S).st.loc i).ups = (S.loc i).ups) ∧
+      (∀ u, ((emitAt G f n v md S).st.downs u).Sublist (S.downs u)) :=
+  ⟨h.of_emitAt G f n v md, fun i => (emitAt_ups G f n v md S i).1, interp_downs_sublist G f (.emit n v md) S⟩
+
+/-- Without end-bounded slices the full equivalence survives every run. -/
+theorem links_consistent_emit_static (hG : NoBoundedSlice G) {S : State} (h : Consistent S) (f : Nat) (n : NodeId)
+    (v : Val) (md : Meta) : Consistent (emitAt G f n v md S).st :=
+  h.of_emitAt_static G hG f n v md
+
+/-- **Every history.**  Start from a consistent pipeline with aligned per-input state whose attached nodes are
+all alive; apply any sequence of connect / disconnect / destroy / drop-reference / emit operations (failed
+edits and failed emissions included), where `connect` is only applied to held streams and never creates a
+parallel edge.  Then: every child lists its parent; there are no duplicate links; and for every node that is
+alive and not an end-bounded slice the two directions are equivalent. -/
+theorem links_consistent (nodes : List NodeId) {ops : List Op} {h0 : HState} (hc : Consistent h0.S)
+    (ha : Aligned G h0.S) (hd : ∀ u d, d ∈ h0.S.downs u → alive nodes h0.L h0.S d = true)
+    (hv : ValidHist G nodes ops h0) :
+    (∀ u d, d ∈ (runOps G nodes ops h0).S.downs u → u ∈ ((runOps G nodes ops h0).S.loc d).ups) ∧
+    (∀ u d, alive nodes (runOps G nodes ops h0).L (runOps G nodes ops h0).S d = true → ¬ BoundedSlice (G d) →
+      (d ∈ (runOps G nodes ops h0).S.downs u ↔ u ∈ ((runOps G nodes ops h0).S.loc d).ups)) ∧
+    (∀ u, ((runOps G nodes ops h0).S.downs u).Nodup) ∧ (∀ d, ((runOps G nodes ops h0).S.loc d).ups.Nodup) := by
+  have hi := (HInv.init G nodes hc ha hd).run G nodes hv
+  exact ⟨hi.links.fwd, fun u d h1 h2 => hi.links.iff ⟨h1, h2⟩ u, hi.links.nodupDowns, hi.links.nodupUps⟩
+
+/-! ## 2. Per-input state stays aligned with `upstreams` -/
+
+/-- `zip`: the keys of `buffers` are the upstream list (same order).  Preserved by `_add_upstream` of a new
+upstream, by a successful `_remove_upstream`, and by every state `update` writes. -/
+theorem zip_state_aligned {lits : List (Nat × Val)} {s : NState} (h : ZipAligned s) (hn : s.ups.Nodup) :
+    (∀ u, u ∉ s.ups → ZipAligned (addUpstream (.zip lits) s u)) ∧
+    (∀ u s' md, removeUpstream (.zip lits) s u = .ok (s', md) → ZipAligned s' ∧ s'.ups = s.ups.erase u) ∧
+    (∀ who v md s', Eff.set s' ∈ (upd (.zip lits) s who v md).effs → ZipAligned s' ∧ s'.ups = s.ups) :=
+  ⟨fun _ hu => NodeAligned.addUpstream (k := .zip lits) h hu,
+   fun _ _ _ hr => ⟨NodeAligned.removeUpstream (k := .zip lits) h hn hr, (removeUpstream_ok hr).2⟩,
+   fun _ _ _ _ hs => ⟨upd_set_aligned (k := .zip lits) h hn hs, (upd_set_frame hs).1⟩⟩
+
+/-- `combine_latest`: `last` and `metadata` are index-aligned with `upstreams`, `missing ⊆ upstreams` (all three
+are the upstream list mapped / filtered through per-upstream components), and `emit_on` follows `upstreams`
+when it was not given.  Preserved by `_add_upstream`, successful `_remove_upstream`, and `update`. -/
+theorem combine_state_aligned {eo : Option (List NodeId)} {s : NState} (h : NodeAligned (.combineLatest eo) s)
+    (hn : s.ups.Nodup) :
+    CLAligned s ∧
+    (∀ u, u ∉ s.ups → NodeAligned (.combineLatest eo) (addUpstream (.combineLatest eo) s u)) ∧
+    (∀ u s' md, removeUpstream (.combineLatest eo) s u = .ok (s', md) →
+      NodeAligned (.combineLatest eo) s' ∧ s'.ups = s.ups.erase u) ∧
+    (∀ who v md s', Eff.set s' ∈ (upd (.combineLatest eo) s who v md).effs →
+      NodeAligned (.combineLatest eo) s' ∧ s'.ups = s.ups) := by
+  obtain ⟨c, hc⟩ := h.1
+  exact ⟨hc.aligned hn, fun _ hu => h.addUpstream hu,
+    fun _ _ _ hr => ⟨h.removeUpstream hn hr, (removeUpstream_ok hr).2⟩,
+    fun _ _ _ _ hs => ⟨upd_set_aligned h hn hs, (upd_set_frame hs).1⟩⟩
+
+/-- ... and therefore after every history every `zip` / `combine_latest` node of the pipeline is aligned. -/
+theorem state_aligned_history (nodes : List NodeId) {ops : List Op} {h0 : HState} (hc : Consistent h0.S)
+    (ha : Aligned G h0.S) (hd : ∀ u d, d ∈ h0.S.downs u → alive nodes h0.L h0.S d = true)
+    (hv : ValidHist G nodes ops h0) (i : NodeId) :
+    (∀ lits, G i = .zip lits →
+      ((runOps G nodes ops h0).S.loc i).bufs.map (·.1) = ((runOps G nodes ops h0).S.loc i).ups) ∧
+    (∀ eo, G i = .combineLatest eo → CLAligned ((runOps G nodes ops h0).S.loc i) ∧
+      (eo = none → ((runOps G nodes ops h0).S.loc i).emitOn = ((runOps G nodes ops h0).S.loc i).ups)) := by
+  have hi := (HInv.init G nodes hc ha hd).run G nodes hv
+  have := hi.aligned i
+  constructor
+  · intro lits hk; rw [hk] at this; exact this
+  · intro eo hk
+    rw [hk] at this
+    obtain ⟨⟨c, hc'⟩, he⟩ := this
+    exact ⟨hc'.aligned (hi.links.nodupUps i), he⟩
+
+/-! ## 3. Elements are delivered exactly along the edges that currently exist -/
+
+/-- **After any history** (as in `links_consistent`, connecting only towards later-created nodes so that the
+pipeline stays a DAG), a successful `_emit` at `n` hands the element to exactly the current child list of `n`,
+in attachment order, once each; every node it reaches lists `n` as a parent and is alive; conversely every alive
+node (not an end-bounded slice) that lists `n` as a parent is reached; and every arrival anywhere in the run goes
+along a current edge whose two ends agree. -/
+theorem delivery_follows_current_edges (nodes : List NodeId) {ops : List Op} {h0 : HState} (hc : Consistent h0.S)
+    (ha : Aligned G h0.S) (hd : ∀ u d, d ∈ h0.S.downs u → alive nodes h0.L h0.S d = true)
+    (hA : Acyclic h0.S) (hv : ValidHist G nodes ops h0) (hdag : ∀ op ∈ ops, OpDag op)
+    {f : Nat} {n : NodeId} {v : Val} {md : Meta}
+    (he : (emitAt G f n v md (runOps G nodes ops h0).S).err = none)
+    (hcar : (emitAt G f n v md (runOps G nodes ops h0).S).carried = none) :
+    arrivalsFrom n (emitAt G f n v md (runOps G nodes ops h0).S).log
+        = ((runOps G nodes ops h0).S.downs n).map (fun d => (d, v, md)) ∧
+    (∀ d, d ∈ (runOps G nodes ops h0).S.downs n →
+      n ∈ ((runOps G nodes ops h0).S.loc d).ups ∧
+        alive nodes (runOps G nodes ops h0).L (runOps G nodes ops h0).S d = true) ∧
+    (∀ d, alive nodes (runOps G nodes ops h0).L (runOps G nodes ops h0).S d = true → ¬ BoundedSlice (G d) →
+      n ∈ ((runOps G nodes ops h0).S.loc d).ups →
+        (d, v, md) ∈ arrivalsFrom n (emitAt G f n v md (runOps G nodes ops h0).S).log) ∧
+    (∀ d who v' md', Ev.arrive d who v' md' ∈ (emitAt G f n v md (runOps G nodes ops h0).S).log →
+      d ∈ (runOps G nodes ops h0).S.downs who ∧ who ∈ ((runOps G nodes ops h0).S.loc d).ups) := by
+  have hi := (HInv.init G nodes hc ha hd).run G nodes hv
+  have hA' := acyclic_runOps G nodes (ops := ops) hA hdag
+  have hsnap := emit_snapshot G hA' he hcar
+  refine ⟨hsnap, fun d hd' => ⟨hi.links.fwd n d hd', hi.downsAlive n d hd'⟩, fun d h1 h2 h3 => ?_,
+    fun d who v' md' hm => ?_⟩
+  · rw [hsnap]
+    exact List.mem_map.2 ⟨d, hi.links.bwd n d ⟨h1, h2⟩ h3, rfl⟩
+  · have := arrival_edge G hA' he hcar hm
+    exact ⟨this, hi.links.fwd who d this⟩
+
+/-! ## 4. Combining nodes behave like a node over their current inputs -/
+
+/-- `zip._remove_upstream(u)` drops exactly `u`'s deque (releasing what it held); every remaining upstream keeps
+its buffered elements, in the same order: the result is the node over the remaining upstreams holding the same
+buffers.  `_add_upstream` of a new upstream adds one empty deque at the end. -/
+theorem zip_remove_drops_only_that_buffer {lits : List (Nat × Val)} {s : NState} (h : ZipAligned s)
+    (hn : s.ups.Nodup) {u : NodeId} :
+    (u ∈ s.ups → removeUpstream (.zip lits) s u =
+      .ok ({ s with ups := s.ups.erase u, bufs := (s.ups.erase u).map (fun w => (w, zipBuf s w)) },
+           flatMd ((zipBuf s u).map (·.2)))) ∧
+    (u ∉ s.ups → removeUpstream (.zip lits) s u = .error .keyError ∧
+      addUpstream (.zip lits) s u =
+        { s with ups := s.ups ++ [u],
+                 bufs := (s.ups ++ [u]).map (fun w => (w, if w = u then [] else zipBuf s w)) }) :=
+  ⟨fun hu => zip_removeUpstream (h.rep hn) hn hu,
+   fun hu => ⟨zip_removeUpstream_absent (h.rep hn) hu, zip_addUpstream (h.rep hn) hu⟩⟩
+
+/-- **zip is a function of (current upstream list, per-upstream buffers)**: over any arrivals from current
+upstreams, state and outputs are those of the pure `zipRun` on the buffers.  So after any edit the node behaves
+exactly like a node built over its current inputs that holds, per input, what is currently buffered for it. -/
+theorem zip_is_function_of_current_inputs {lits : List (Nat × Val)} {s : NState} (h : ZipAligned s)
+    (hn : s.ups.Nodup) {as : List Arr} (hw : ∀ a ∈ as, a.1 ∈ s.ups) :
+    localRun (.zip lits) s as =
+      ({ s with bufs := s.ups.map (fun w => (w, (zipRun lits s.ups (zipBuf s) as).1 w)) },
+       (zipRun lits s.ups (zipBuf s) as).2) :=
+  zip_localRun (h.rep hn) hw
+
+/-- **After a disconnect, if some remaining buffer is empty**, the node is indistinguishable from a *fresh* zip
+over the remaining upstreams that is fed the backlog (any interleaving `backlog` of the buffered elements, per
+upstream in order): the fresh node emits nothing while consuming the backlog, reaches exactly the node's state,
+and from then on (`later`: any arrivals) produces the same outputs and states.
+Partial: the hypothesis `hempty` cannot be dropped — see `zip_stuck_after_disconnect`. -/
+theorem zip_after_disconnect_partial {lits : List (Nat × Val)} {s s' : NState} {md : Meta} (h : ZipAligned s)
+    (hn : s.ups.Nodup) {u : NodeId} (hr : removeUpstream (.zip lits) s u = .ok (s', md))
+    {w0 : NodeId} (hw0 : w0 ∈ s'.ups) (hempty : zipBuf s w0 = [])
+    {backlog : List Arr} (hfrom : ∀ a ∈ backlog, a.1 ∈ s'.ups)
+    (hproj : ∀ w ∈ s'.ups, proj w backlog = zipBuf s w) (later : List Arr) :
+    localRun (.zip lits) (zipFresh s') backlog = (s', []) ∧
+      localRun (.zip lits) (zipFresh s') (backlog ++ later) = localRun (.zip lits) s' later := by
+  have hu := (removeUpstream_ok hr).1
+  have hrep : ZipRep s' (zipBuf s) := by
+    rw [zip_removeUpstream (h.rep hn) hn hu] at hr
+    cases hr; rfl
+  have hne : ∀ a ∈ backlog, a.1 ≠ w0 := by
+    intro a ha e
+    have h1 : a.2 ∈ proj w0 backlog := by
+      unfold proj
+      exact List.mem_filterMap.2 ⟨a, ha, by rw [if_pos e]⟩
+    rw [hproj w0 hw0, hempty] at h1
+    cases h1
+  have key : localRun (.zip lits) (zipFresh s') backlog = (s', []) := by
+    have hfrom' : ∀ a ∈ backlog, a.1 ∈ (zipFresh s').ups := hfrom
+    rw [zip_localRun (zipFresh_rep s') hfrom']
+    have hw0' : w0 ∈ (zipFresh s').ups := hw0
+    rw [zipRun_waiting lits hw0' backlog hne (fun _ => []) rfl]
+    have hb : (zipFresh s').ups.map (fun w => (w, ([] : List (Val × Meta)) ++ proj w backlog)) = s'.bufs := by
+      have : s'.bufs = s'.ups.map (fun w => (w, zipBuf s w)) := hrep
+      rw [this]
+      exact List.map_congr_left (fun w hw => by rw [List.nil_append, hproj w hw])
+    simp only [hb]
+    rfl
+  refine ⟨key, ?_⟩
+  rw [localRun_append, key]
+  simp
+
+/-- **The stuck state, in general**: once every deque of a current upstream is non-empty, no arrival from a
+current upstream ever makes the node emit — `update` only fires when the sender's deque *becomes* non-empty
+(`len(L) == 1 and all(self.buffers.values())`). -/
+theorem zip_all_nonempty_never_emits {lits : List (Nat × Val)} {s : NState} (h : ZipAligned s) (hn : s.ups.Nodup)
+    (hfull : ∀ w ∈ s.ups, (zipBuf s w).isEmpty = false) {as : List Arr} (hw : ∀ a ∈ as, a.1 ∈ s.ups) :
+    (localRun (.zip lits) s as).2 = [] := by
+  rw [zip_localRun (h.rep hn) hw]
+  exact (zipRun_stuck lits as hw _ hfull).1
+
+/-- the witness: `zip` over upstreams 1, 2, 3 after `1` delivered `10` and `2` delivered `20` -/
+def stuckS : NState :=
+  { ups := [1, 2, 3], bufs := [(1, [(.int 10, [])]), (2, [(.int 20, [])]), (3, [])] }
+
+/-- the same node after upstream 3 (the only one with an empty deque) was disconnected -/
+def stuckS' : NState :=
+  { ups := [1, 2], bufs := [(1, [(.int 10, [])]), (2, [(.int 20, [])])] }
+
+/-- **Negation of "behaves like a node over its current inputs fed what they delivered"** (known finding
+`zip-disconnect-leaves-all-buffers-nonempty`).  Removing upstream 3 succeeds and leaves both remaining deques
+non-empty; from then on the node emits nothing, however many elements arrive from upstream 1, from upstream 2,
+or from both in any order — whereas a fresh `zip` over [1, 2] fed the backlog emits the pair (10, 20) at once. -/
+theorem zip_stuck_after_disconnect :
+    (removeUpstream (.zip []) stuckS 3).toOption.map (·.1.bufs) = some stuckS'.bufs ∧
+    (removeUpstream (.zip []) stuckS 3).toOption.map (·.1.ups) = some stuckS'.ups ∧
+    (∀ as : List Arr, (∀ a ∈ as, a.1 ∈ stuckS'.ups) → (localRun (.zip []) stuckS' as).2 = []) ∧
+    (localRun (.zip []) (zipFresh stuckS') [(1, .int 10, []), (2, .int 20, [])]).2
+      = [(.tup [.int 10, .int 20], [])] := by
+  refine ⟨by decide +kernel, by decide +kernel, fun as has => ?_, by decide +kernel⟩
+  have hal : ZipAligned stuckS' := rfl
+  have hn : stuckS'.ups.Nodup := by decide
+  refine zip_all_nonempty_never_emits hal hn ?_ has
+  intro w hw
+  have : w = 1 ∨ w = 2 := by simpa [stuckS'] using hw
+  rcases this with rfl | rfl <;> rfl
+
+/-- `combine_latest` **is a function of (current upstream list, per-upstream latest value / metadata / missing
+flag)**, and the edits touch exactly one component: `_remove_upstream(u)` yields the node over the remaining
+upstreams with the *same* components (releasing `u`'s metadata); `_add_upstream` of a new upstream adds a
+component that is empty and missing; over any arrivals from current upstreams, state and outputs are those of
+the pure `clRun` on the components. -/
+theorem combine_latest_after_edit {eo : Option (List NodeId)} {s : NState} {c : CLComp} (hr : CLRep s c)
+    (hn : s.ups.Nodup) :
+    (∀ u, u ∈ s.ups → removeUpstream (.combineLatest eo) s u =
+      .ok ({ s with ups := s.ups.erase u,
+                    last := (s.ups.erase u).map c.last,
+                    lastMd := (s.ups.erase u).map c.md,
+                    missing := (s.ups.erase u).filter c.miss,
+                    emitOn := match eo with | none => s.ups.erase u | some _ => s.emitOn },
+           c.md u)) ∧
+    (∀ u, u ∉ s.ups → removeUpstream (.combineLatest eo) s u = .error .valueError ∧
+      CLRep (addUpstream (.combineLatest eo) s u)
+        { last := fun w => if w = u then Val.none else c.last w
+          md := fun w => if w = u then [] else c.md w
+          miss := fun w => decide (w = u) || c.miss w }) ∧
+    (∀ as : List Arr, (∀ a ∈ as, a.1 ∈ s.ups) →
+      localRun (.combineLatest eo) s as =
+        ({ s with last := s.ups.map (clRun s.ups s.emitOn c as).1.last,
+                  lastMd := s.ups.map (clRun s.ups s.emitOn c as).1.md,
+                  missing := s.ups.filter (clRun s.ups s.emitOn c as).1.miss },
+         (clRun s.ups s.emitOn c as).2)) :=
+  ⟨fun _ hu => cl_removeUpstream hr hn hu,
+   fun _ hu => ⟨cl_removeUpstream_absent hu, hr.addUpstream hu⟩,
+   fun _ hw => cl_localRun hr hn hw⟩
+
+/-! ## 5. Unreferenced branches stop receiving, sinks stay active until destroyed -/
+
+/-- After a collection only alive nodes are anybody's child; liveness itself is not changed by collecting. -/
+theorem collect_alive_only (nodes : List NodeId) (L : Live) (S : State) :
+    (∀ u d, d ∈ (collect nodes L S).downs u → alive nodes L S d = true) ∧
+      alive nodes L (collect nodes L S) = alive nodes L S :=
+  ⟨fun u d hd => by rw [collect_downs] at hd; exact (List.mem_filter.1 hd).2, alive_collect nodes nodes L⟩
+
+/-- `alive` really is a fixed point (`nodes.length` rounds suffice): it contains the roots — held nodes and
+registered sinks — and is closed upwards: whatever an alive node of the program holds (its `upstreams`, the
+streams of `emit_on`) is alive. -/
+theorem alive_upward_closed (nodes : List NodeId) (L : Live) (S : State) :
+    (∀ i, L.held i = true ∨ L.sinkReg i = true → alive nodes L S i = true) ∧
+    (∀ c u, c ∈ nodes → alive nodes L S c = true → u ∈ (S.loc c).ups → alive nodes L S u = true) ∧
+    (∀ i, aliveStep nodes S (alive nodes L S) i = alive nodes L S i) :=
+  ⟨fun _ h => alive_of_root nodes h,
+   fun _ _ hc ha hu => alive_closed nodes hc ha (keeps_iff.2 (.inl hu)),
+   alive_stable nodes L S⟩
+
+/-- ... and it is the *least* such set: a node is alive iff it is reachable upwards from a root.  In particular
+a node that is neither held, nor a registered sink, nor kept by an alive node, is not alive. -/
+theorem alive_iff_reachable (nodes : List NodeId) (L : Live) (S : State) (i : NodeId) :
+    (alive nodes L S i = true ↔ Kept nodes L S i) ∧
+    (alive nodes L S i = true → L.held i = true ∨ L.sinkReg i = true ∨
+      ∃ c ∈ nodes, alive nodes L S c = true ∧ (i ∈ (S.loc c).ups ∨ i ∈ (S.loc c).emitOn)) :=
+  ⟨alive_iff_kept nodes, fun h => by
+    rcases alive_cases nodes h with h | h | ⟨c, hc, h1, h2⟩
+    · exact .inl h
+    · exact .inr (.inl h)
+    · exact .inr (.inr ⟨c, hc, h1, keeps_iff.1 h2⟩)⟩
+
+/-- No operation of a valid history resurrects a node: what is alive afterwards was alive before (so a branch
+that died stays dead; `connect` cannot revive one because the program can only connect streams it holds). -/
+theorem no_resurrection (nodes : List NodeId) {h : HState} (hi : HInv G nodes h) (op : Op) (hok : OpOk op h)
+    {i : NodeId} (hal : alive nodes (stepOp G nodes op h).L (stepOp G nodes op h).S i = true) :
+    alive nodes h.L h.S i = true ∧ HInv G nodes (stepOp G nodes op h) :=
+  ⟨alive_step_le G nodes hi op hok hal, hi.step G nodes op hok⟩
+
+/-- **A branch that is no longer referenced stops receiving data**: after any valid history, a node that is
+not alive (not held, not a registered sink, not kept by an alive node) is nobody's child, and no `_emit`
+anywhere in the pipeline produces an arrival at it. -/
+theorem dead_branch_receives_nothing (nodes : List NodeId) {ops : List Op} {h0 : HState} (hc : Consistent h0.S)
+    (ha : Aligned G h0.S) (hd : ∀ u d, d ∈ h0.S.downs u → alive nodes h0.L h0.S d = true)
+    (hA : Acyclic h0.S) (hv : ValidHist G nodes ops h0) (hdag : ∀ op ∈ ops, OpDag op)
+    {d : NodeId} (hdead : alive nodes (runOps G nodes ops h0).L (runOps G nodes ops h0).S d = false)
+    {f : Nat} {n : NodeId} {v : Val} {md : Meta}
+    (he : (emitAt G f n v md (runOps G nodes ops h0).S).err = none)
+    (hcar : (emitAt G f n v md (runOps G nodes ops h0).S).carried = none) :
+    (∀ u, d ∉ (runOps G nodes ops h0).S.downs u) ∧
+    ∀ who v' md', Ev.arrive d who v' md' ∉ (emitAt G f n v md (runOps G nodes ops h0).S).log := by
+  have hi := (HInv.init G nodes hc ha hd).run G nodes hv
+  have hA' := acyclic_runOps G nodes (ops := ops) hA hdag
+  have hno : ∀ u, d ∉ (runOps G nodes ops h0).S.downs u := by
+    intro u hu
+    rw [hi.downsAlive u d hu] at hdead
+    cases hdead
+  exact ⟨hno, fun who v' md' hm => hno who (arrival_edge G hA' he hcar hm)⟩
+
+/-- A sink stays registered — hence alive, hence attached to all its parents, hence served by every emission of
+each of them — until a `destroy` of that very sink occurs in the history, whether or not the program still
+holds a reference to it. -/
+theorem sink_stays_active (nodes : List NodeId) {ops : List Op} {h0 : HState} (hc : Consistent h0.S)
+    (ha : Aligned G h0.S) (hd : ∀ u d, d ∈ h0.S.downs u → alive nodes h0.L h0.S d = true)
+    (hA : Acyclic h0.S) (hv : ValidHist G nodes ops h0) (hdag : ∀ op ∈ ops, OpDag op)
+    {d : NodeId} {m : SinkMode} (hk : G d = .sink m) (hreg : h0.L.sinkReg d = true)
+    (hnd : Op.destroy d ∉ ops) :
+    alive nodes (runOps G nodes ops h0).L (runOps G nodes ops h0).S d = true ∧
+    ∀ n, n ∈ ((runOps G nodes ops h0).S.loc d).ups →
+      d ∈ (runOps G nodes ops h0).S.downs n ∧
+      ∀ f v md, (emitAt G f n v md (runOps G nodes ops h0).S).err = none →
+        (emitAt G f n v md (runOps G nodes ops h0).S).carried = none →
+        (d, v, md) ∈ arrivalsFrom n (emitAt G f n v md (runOps G nodes ops h0).S).log := by
+  have hi := (HInv.init G nodes hc ha hd).run G nodes hv
+  have hA' := acyclic_runOps G nodes (ops := ops) hA hdag
+  have hreg' : (runOps G nodes ops h0).L.sinkReg d = true := by rw [sinkReg_runOps G nodes ops h0 d hnd]; exact hreg
+  have hal := alive_of_root nodes (S := (runOps G nodes ops h0).S) (.inr hreg')
+  have hnb : ¬ BoundedSlice (G d) := by
+    rintro ⟨a, e, c, h1, _⟩; rw [hk] at h1; cases h1
+  refine ⟨hal, fun n hn => ?_⟩
+  have hmem := hi.links.bwd n d ⟨hal, hnb⟩ hn
+  refine ⟨hmem, fun f v md he hcar => ?_⟩
+  rw [emit_snapshot G hA' he hcar]
+  exact List.mem_map.2 ⟨d, hmem, rfl⟩
+
+/-! ## Non-vacuity: a concrete 4-node pipeline
+
+`source 0`, `source 1`, `zip(0, 1) = 2`, `sink 3` below the zip; the program holds all four, the sink is
+registered in `_global_sinks`. -/
+
+def c15Kinds : List Kind := [.source, .source, .zip [], .sink (.sync .id)]
+def c15Upss : List (List NodeId) := [[], [], [0, 1], [2]]
+def c15G : NodeId → Kind := fun i => c15Kinds.getD i .source
+def c15Nodes : List NodeId := [0, 1, 2, 3]
+def c15H0 : HState :=
+  { S := initState c15Kinds c15Upss, L := { held := fun _ => true, sinkReg := fun i => i == 3 } }
+
+theorem c15_consistent : Consistent c15H0.S := (links_consistent_init (by decide) (by decide)).1
+theorem c15_aligned : Aligned c15G c15H0.S := (links_consistent_init (by decide) (by decide)).2
+theorem c15_downsAlive : ∀ u d, d ∈ c15H0.S.downs u → alive c15Nodes c15H0.L c15H0.S d = true :=
+  fun _ _ _ => alive_of_root c15Nodes (.inl rfl)
+theorem c15_acyclic : Acyclic c15H0.S := by
+  intro u d h
+  have h' := (initState_downs c15Kinds c15Upss u d).1 h
+  obtain ⟨hlt, hu⟩ := h'
+  have hd : d = 0 ∨ d = 1 ∨ d = 2 ∨ d = 3 := by
+    simp only [c15Kinds, List.length_cons, List.length_nil] at hlt; unfold NodeId at *; omega
+  rcases hd with rfl | rfl | rfl | rfl <;> simp [c15Upss] at hu <;> (unfold NodeId at *; omega)
+
+/-- data flows, then the pipeline is edited: the element of source 0 is buffered in the zip; source 1 is
+disconnected (per-input state exists for the *other* input); a second disconnect fails; source 1 is connected
+again; all of it a valid history. -/
+def c15Ops : List Op :=
+  [.emit 50 0 (.int 10) [], .disconnect 1 2, .disconnect 1 2, .connect 1 2]
+
+theorem c15_valid : ValidHist c15G c15Nodes c15Ops c15H0 :=
+  ⟨trivial, trivial, trivial, ⟨by decide +kernel, by decide +kernel, by decide +kernel, by decide +kernel⟩, trivial⟩
+
+theorem c15_dag : ∀ op ∈ c15Ops, OpDag op := by
+  intro op h
+  simp only [c15Ops, List.mem_cons, List.not_mem_nil, or_false] at h
+  rcases h with rfl | rfl | rfl | rfl <;> simp [OpDag]
+
+/-- the second `disconnect` is the absent-edge no-op of `disconnect_absent_noop` -/
+example : (disconnect c15G 1 2 (runOps c15G c15Nodes (c15Ops.take 2) c15H0).S).err = some .keyError := by
+  decide +kernel
+/-- ... the first one succeeded, after data had flowed -/
+example : (disconnect c15G 1 2 (runOps c15G c15Nodes (c15Ops.take 1) c15H0).S).err = none ∧
+    ((runOps c15G c15Nodes (c15Ops.take 1) c15H0).S.loc 2).bufs = [(0, [(.int 10, [])]), (1, [])] := by
+  decide +kernel
+/-- the links after the history: 1 was re-attached (so it is now the *last* parent of the zip) -/
+example : (runOps c15G c15Nodes c15Ops c15H0).S.downs 0 = [2] ∧
+    (runOps c15G c15Nodes c15Ops c15H0).S.downs 1 = [2] ∧
+    ((runOps c15G c15Nodes c15Ops c15H0).S.loc 2).ups = [0, 1] ∧
+    ((runOps c15G c15Nodes c15Ops c15H0).S.loc 2).bufs = [(0, [(.int 10, [])]), (1, [])] := by
+  decide +kernel
+/-- the conclusions of the history theorems hold of it -/
+example := links_consistent c15G c15Nodes c15_consistent c15_aligned c15_downsAlive c15_valid
+example : (emitAt c15G 50 1 (.int 20) [] (runOps c15G c15Nodes c15Ops c15H0).S).err = none ∧
+    (emitAt c15G 50 1 (.int 20) [] (runOps c15G c15Nodes c15Ops c15H0).S).carried = none := by decide +kernel
+example := delivery_follows_current_edges c15G c15Nodes c15_consistent c15_aligned c15_downsAlive c15_acyclic
+  c15_valid c15_dag (f := 50) (n := 1) (v := .int 20) (md := []) (by decide +kernel) (by decide +kernel)
+/-- ... and the sink gets the pair: the zip behaved like a zip over (0, 1) holding 10 for input 0 -/
+example : arrivalsAt 3 (emitAt c15G 50 1 (.int 20) [] (runOps c15G c15Nodes c15Ops c15H0).S).log
+    = [(2, .tup [.int 10, .int 20], [])] := by decide +kernel
+
+/-- The recorded defect at pipeline level: after `emit 0 10; disconnect 1 2` the zip is a zip over source 0
+alone whose only deque is non-empty; nothing source 0 emits afterwards ever reaches the sink. -/
+example :
+    let S := (runOps c15G c15Nodes [.emit 50 0 (.int 10) [], .disconnect 1 2, .emit 50 0 (.int 11) []] c15H0).S
+    ((S.loc 2).ups = [0] ∧ (S.loc 2).bufs = [(0, [(.int 10, []), (.int 11, [])])]) ∧
+    (emitAt c15G 50 0 (.int 12) [] S).err = none ∧ arrivalsAt 3 (emitAt c15G 50 0 (.int 12) [] S).log = [] := by
+  decide +kernel
+
+/-- liveness: the program destroys the sink and forgets sink and zip — the whole branch below the sources dies,
+the sources (still held) lose their child, and an emission reaches nobody -/
+def c15Forget : List Op := [.destroy 3, .drop 3, .drop 2]
+
+example :
+    let h := runOps c15G c15Nodes c15Forget c15H0
+    (alive c15Nodes h.L h.S 2 = false ∧ alive c15Nodes h.L h.S 3 = false ∧ alive c15Nodes h.L h.S 0 = true) ∧
+    h.S.downs 0 = [] ∧ h.S.downs 1 = [] ∧ (h.S.loc 2).ups = [0, 1] ∧
+    (emitAt c15G 50 0 (.int 1) [] h.S).err = none ∧ arrivalsFrom 0 (emitAt c15G 50 0 (.int 1) [] h.S).log = [] := by
+  decide +kernel
+
+/-- ... whereas an undestroyed sink keeps the whole branch alive although nobody holds it
+(`sink_stays_active`: its hypotheses are satisfiable) -/
+example :
+    let h := runOps c15G c15Nodes [.drop 3, .drop 2] c15H0
+    (alive c15Nodes h.L h.S 2 = true ∧ alive c15Nodes h.L h.S 3 = true) ∧ h.S.downs 0 = [2] ∧ h.S.downs 2 = [3] := by
+  decide +kernel
+example := sink_stays_active c15G c15Nodes (ops := [.drop 3, .drop 2]) c15_consistent c15_aligned c15_downsAlive
+  c15_acyclic ⟨trivial, trivial, trivial⟩ (by intro op h; simp at h; rcases h with rfl | rfl <;> simp [OpDag])
+  (d := 3) (m := .sync .id) rfl rfl (by intro h; simp at h)
+
+/-- `zip_after_disconnect_partial` is not vacuous: zip over 1, 2, 3 holding 10 for input 1, nothing for 2 and 3;
+disconnect 3; the backlog is the single arrival (1, 10) -/
+example : removeUpstream (.zip [])
+      { ups := [1, 2, 3], bufs := [(1, [(.int 10, [])]), (2, []), (3, [])] } 3 =
+    .ok ({ ups := [1, 2], bufs := [(1, [(.int 10, [])]), (2, [])] }, []) ∧
+    proj 1 [(1, .int 10, [])] = [(.int 10, [])] ∧ proj 2 [(1, .int 10, [])] = [] := by
+  refine ⟨rfl, by decide +kernel, by decide +kernel⟩
+
+/-- `combine_latest_after_edit`: a node over (0, 1) that has 5 from input 0 and nothing from input 1 -/
+example : CLRep { ups := [0, 1], last := [.int 5, .none], lastMd := [[], []], missing := [1], emitOn := [0, 1] }
+    { last := fun w => if w = 0 then .int 5 else .none, md := fun _ => [], miss := fun w => w == 1 } :=
+  ⟨rfl, rfl, rfl⟩
+
 end StreamzVerif.Graph
